@@ -118,7 +118,8 @@ def run(facts, rep, tier):
                 n2 += 1
                 only, p = option_some_payload(v)
                 a = int_aff(p) if p is not None else None
-                ok = isinstance(v, EnumV) and v.may("None") and v.may("Some") and a == want and p.lo == 0 and p.hi == 50175
+                from ..absint.query import same_fn
+                ok = isinstance(v, EnumV) and v.may("None") and v.may("Some") and (a == want or same_fn(p, want)) and p.lo == 0 and p.hi == 50175
                 rep.oblige(ok, ("q1", r.ctx["label"]))
                 if n2 <= 2:
                     rep.sample({"rule": "R05.2", "context": r.ctx["label"], "value": repr(v)[:200]})
@@ -157,34 +158,66 @@ def run(facts, rep, tier):
     rep.instances("R05.2", n2, floor=8)
     rep.instances("R05.3", n3, floor=3)
 
-    # ---- R05.4 Gillham per C class
+    # ---- R05.4 Gillham per C class: compared as FUNCTIONS of the 500-ft Gray bits (tabulated over the bits involved), so an
+    # implementation by shifts, by loops or by lookup tables is judged by what it computes, not by how it is written
+    from ..absint.query import aff_table, fn_table
     got = {}
+    gtab = {}
     exp = {}
     n4 = 0
+    atoms_all = set(GRAY500)
+    payloads = {}
     for r in sel(results, "gillham"):
         cval = int([t for t in r.ctx["tags"] if t.startswith("c") and t[1:].isdigit()][0][1:])
         n4 += 1
         sts = stores_of(r, "altitude")
         v = sts[-1][1] if sts else None
-        e = gillham_expected(cval)
-        exp[cval] = e
+        exp[cval] = gillham_expected(cval)
+        payloads[cval] = None
         if isinstance(v, EnumV):
             if v.only("None"):
                 got[cval] = None
             else:
                 p = v.payload("Some")
+                payloads[cval] = p
                 a = int_aff(p)
                 got[cval] = a if a is not None else "unknown(%s)" % sorted(frame_deps(p))
+                ft = fn_table(p)
+                if ft is not None:
+                    atoms_all |= set(ft[0])
         else:
             got[cval] = "no store"
     if n4 != 8:
         raise Broken("C05: expected 8 Gillham C-class contexts, got %d" % n4)
-    mism = [c for c in range(8) if got.get(c) != exp.get(c)]
+    atoms = tuple(sorted(atoms_all))
+    mism = []
+    canon_parts = []
+    for c in range(8):
+        p = payloads.get(c)
+        tab = None
+        if p is not None and len(atoms) <= 12:
+            ft = fn_table(p, atoms)
+            # (a negative entry is an assignment for which the u32 subtraction yields no altitude: same as undefined)
+            tab = tuple(None if (x is None or x < 0) else x for x in ft[1]) if ft is not None else None
+        gtab[c] = tab
+        e = exp[c]
+        if e is None:
+            same = got.get(c) is None
+        elif tab is None:
+            same = isinstance(got.get(c), Aff) and got[c] == e
+        else:
+            want = aff_table(e, atoms)
+            # (entries the implementation leaves undefined - below 0 ft - are not compared)
+            same = all(g is None or g == w for g, w in zip(tab, want))
+        if not same:
+            mism.append(c)
+        canon_parts.append("%d:%s" % (c, "none" if got.get(c) is None else (",".join("-" if x is None else str(x) for x in tab) if tab is not None
+                                                                             else (got[c].show() if isinstance(got[c], Aff) else str(got[c])))))
     for c in range(8):
         rep.oblige(c not in mism, ("gillham", c))
-    rep.instances("R05.4", n4, floor=8, what="C1C2C4 classes")
+    rep.instances("R05.4", n4, floor=8, what="C1C2C4 classes, each compared over all assignments of the Gray bits")
     if mism:
-        canon = "|".join("%d:%s" % (c, got[c].show() if isinstance(got[c], Aff) else got[c]) for c in range(8))
+        canon = "bits%s|" % list(atoms) + "|".join(canon_parts)
         fp = hashlib.sha1(canon.encode()).hexdigest()[:10]
         # what is wrong, in words
         used = set()
@@ -192,13 +225,26 @@ def run(facts, rep, tier):
             if isinstance(got[c], Aff):
                 for a in got[c].t:
                     used |= set([a[1]]) if a[0] == "b" else set(a[1])
+            elif payloads.get(c) is not None and fn_table(payloads[c]) is not None:
+                ft = fn_table(payloads[c])
+                for i, bit in enumerate(ft[0]):
+                    if any(ft[1][m] != ft[1][m ^ (1 << i)] for m in range(len(ft[1]))):
+                        used.add(bit)
         missing = [b for b in GRAY500 if b not in used]
-        consts = {c: (got[c].c if isinstance(got[c], Aff) else got[c]) for c in range(8)}
+        consts = {c: (got[c].c if isinstance(got[c], Aff) else (gtab[c][0] if gtab.get(c) else got[c])) for c in range(8)}
+        c0 = mism[0]
+        eg = ""
+        if gtab.get(c0) is not None and exp[c0] is not None:
+            want = aff_table(exp[c0], atoms)
+            for m, (g, w) in enumerate(zip(gtab[c0], want)):
+                if g is not None and g != w:
+                    eg = "; e.g. class %d with Gray bits %s: got %s ft, Annex 10 says %s ft" % (
+                        c0, {b: (m >> i) & 1 for i, b in enumerate(atoms) if b in GRAY500}, g, w)
+                    break
         msg = ("Gillham (Q=0) decoding differs from Annex 10 in C classes %s: 500-ft Gray bits never read: %s (of D2 D4 A1 A2 A4 B1 B2 B4 = bits %s); "
-               "100-ft offsets per C1C2C4 class got %s, expected %s; e.g. class %d got %s, expected %s"
-               % (mism, missing, GRAY500, consts, {c: (exp[c].c if exp[c] is not None else None) for c in range(8)}, mism[0],
-                  got[mism[0]].show() if isinstance(got[mism[0]], Aff) else got[mism[0]], exp[mism[0]].show() if exp[mism[0]] is not None else None))
-        rep.add(Finding("R05.4", "Gillham decode != Annex 10 [form %s]" % fp, msg, None, {"got": canon}))
+               "value at all-zero Gray bits per C1C2C4 class got %s, expected %s%s"
+               % (mism, missing, GRAY500, consts, {c: (exp[c].c if exp[c] is not None else None) for c in range(8)}, eg))
+        rep.add(Finding("R05.4", "Gillham decode != Annex 10 [table %s]" % fp, msg, None, {"got": canon[:2000]}))
     rep.sample({"rule": "R05.4", "class": 2, "got": got[2].show() if isinstance(got.get(2), Aff) else str(got.get(2)),
                 "expected": exp[2].show() if exp.get(2) is not None else None})
 
@@ -235,7 +281,7 @@ def run(facts, rep, tier):
         if True in d and False in d:
             a, b = d[True], d[False]
             pa, pb = option_some_payload(a)[1], option_some_payload(b)[1]
-            same = (pa is None and pb is None) or (pa is not None and pb is not None and (int_aff(pa) == int_aff(pb)) and pa.lo == pb.lo and pa.hi == pb.hi)
+            same = (pa is None and pb is None) or (isinstance(pa, IntV) and isinstance(pb, IntV) and (int_aff(pa) == int_aff(pb)) and pa.lo == pb.lo and pa.hi == pb.hi)
             rep.oblige(same, ("paths", key))
             if not same:
                 rep.add(Finding("R05.5", "altitude differs between update paths: %s" % key,
